@@ -67,15 +67,15 @@ type Options struct {
 }
 
 type env struct {
-	root, cur   any
-	last        int
+	root, cur any
+	last      int
 	// lastLex: the array of the subscript whose brackets lexically enclose the
 	// expression being evaluated. It differs from last (which follows the
 	// evaluation: the array of the subscript step still in progress) exactly
 	// in the steps that follow a nested subscript, e.g. the filter of
 	// $.a[$.b[0] ? (@ <= last)] - there the statements of C09/C14 read one
 	// way and PostgreSQL behaves the other: not pinned.
-	lastLex int
+	lastLex     int
 	vars        map[string]any
 	lax         bool
 	ignore      bool
